@@ -31,6 +31,8 @@ inductive Line
   | assignArith (name l op r : String)              -- `name="$((l op r))"`
   | assignTest (name : String) (t : Test) (a b : String)   -- `name="$(if t; then echo a; else echo b; fi)"`
   | localAssign (name : String) (idx : Nat)         -- `local name="$idx"` (positional parameter of the function)
+  | assignSliceLen (name src : String)              -- `name="$(eval "echo \${#src[@]}")"` (number of elements of the slice `src` names)
+  | assignStrLen (name var : String)                -- `name="${#var}"` (length of the value of variable `var`)
   | sah (arr index value dflt : String)             -- `_sah ${arr} idx "v" "d"`
   | funcStart (name : String)
   | funcEnd
@@ -68,6 +70,8 @@ def Line.render : Line → String
   | .assignArith n l op r => s!"{n}=\"$(({l}{op}{r}))\""
   | .assignTest n t a b => s!"{n}=\"$(if {t.render}; then echo {a}; else echo {b}; fi)\""
   | .localAssign n i => s!"local {n}=\"${i}\""
+  | .assignSliceLen n src => n ++ "=\"$(eval \"echo \\${#" ++ src ++ "[@]}\")\""
+  | .assignStrLen n v => n ++ "=\"${#" ++ v ++ "}\""
   | .sah a i v d => s!"_sah {a} {i} \"{v}\" \"{d}\""
   | .funcStart n => s!"{n}() \{"
   | .funcEnd => "}"
@@ -138,6 +142,15 @@ def varAssignArith (name l op r : String) (global : Bool) : BM Unit := do
 def varAssignTest (name : String) (t : Test) (a b : String) (global : Bool) : BM Unit := do
   let s ← get
   addLine (.assignTest (varName s name global) t a b)
+
+def varAssignSliceLen (name src : String) (global : Bool) : BM Unit := do
+  let s ← get
+  addLine (.assignSliceLen (varName s name global) src)
+
+/-- `name="${#name}"`: the variable is overwritten with the length of its own value -/
+def varAssignStrLen (name : String) (global : Bool) : BM Unit := do
+  let s ← get
+  addLine (.assignStrLen (varName s name global) (varName s name global))
 
 def varEvaluation (name : String) (global : Bool) : BM String := do
   let s ← get
@@ -234,7 +247,7 @@ def sliceEvaluation (name index : String) : BM String := do
 
 def sliceLen (name : String) : BM String := do
   let h ← nextHelperVar
-  varAssignment h (sliceLenString name) false
+  varAssignSliceLen h name false
   varEvaluation h false
 
 def stringSubscript (value a b : String) : BM String := do
@@ -249,8 +262,7 @@ def stringSubscript (value a b : String) : BM String := do
 def stringLen (value : String) : BM String := do
   let h ← nextHelperVar
   varAssignment h value false
-  let s ← get
-  varAssignment h ("${#" ++ varName s h false ++ "}") false
+  varAssignStrLen h false
   varEvaluation h false
 
 def appCallString (calls : List (String × List String)) : String :=
@@ -287,8 +299,7 @@ def copyOp (dst src : String) (global : Bool) : BM String := do
   addLine (.sch (varName s0 dst global) src)
   modify fun s => { s with sahReq := true, schReq := true }
   let h ← nextHelperVar
-  let s ← get
-  varAssignment h (sliceLenString src) false
+  varAssignSliceLen h src false
   let s ← get
   pure (varEvalString s h false)
 
@@ -302,36 +313,34 @@ def readFile (path : String) : BM String := do
   varAssignment h s!"$(cat -- \"{path}\")" false
   varEvaluation h false
 
+/-- the bodies of the three helper routines (fixed text) -/
+def sahBodyLines : List Line :=
+  [.raw "local _i=${2}",
+   .raw ("local _l=" ++ sliceLenString "${1}"),
+   .raw "for ((_c=${_l};_c<${_i};_c++)); do",
+   .raw (sliceAssignmentString "${1}" "${_c}" "4"),
+   .raw "done",
+   .raw (sliceAssignmentString "${1}" "${_i}" "3")]
+
+def schBodyLines : List Line :=
+  [.raw "local _i=0",
+   .raw ("local _l=" ++ sliceLenString "${2}"),
+   .raw "local _n=$(eval \"echo \\${${1}}\")",
+   .raw "while [ ${_i} -lt ${_l} ]; do",
+   .raw (sliceEvaluationString "local _v" "${2}" "${_i}"),
+   .raw (sliceAssignmentString "${_n}" "${_i}" "_v"),
+   .raw "_i=$((${_i}+1))",
+   .raw "done"]
+
+def sshBodyLines : List Line :=
+  [.raw "_ls=$((${2}))",
+   .raw "_ll=$(((${3}-${2})+1))",
+   .raw "_ret=\"${1:${_ls}:${_ll}}\""]
+
 def helperLines (s : St) : List Line :=
-  (if s.sahReq then
-    [.comment "slice assignment", .funcStart "_sah",
-     .raw "local _i=${2}",
-     .raw ("local _l=" ++ sliceLenString "${1}"),
-     .raw "for ((_c=${_l};_c<${_i};_c++)); do",
-     .raw (sliceAssignmentString "${1}" "${_c}" "4"),
-     .raw "done",
-     .raw (sliceAssignmentString "${1}" "${_i}" "3"),
-     .funcEnd]
-   else []) ++
-  (if s.schReq then
-    [.comment "slice copy", .funcStart "_sch",
-     .raw "local _i=0",
-     .raw ("local _l=" ++ sliceLenString "${2}"),
-     .raw "local _n=$(eval \"echo \\${${1}}\")",
-     .raw "while [ ${_i} -lt ${_l} ]; do",
-     .raw (sliceEvaluationString "local _v" "${2}" "${_i}"),
-     .raw (sliceAssignmentString "${_n}" "${_i}" "_v"),
-     .raw "_i=$((${_i}+1))",
-     .raw "done",
-     .funcEnd]
-   else []) ++
-  (if s.sshReq then
-    [.comment "substring", .funcStart "_ssh",
-     .raw "_ls=$((${2}))",
-     .raw "_ll=$(((${3}-${2})+1))",
-     .raw "_ret=\"${1:${_ls}:${_ll}}\"",
-     .funcEnd]
-   else [])
+  (if s.sahReq then .comment "slice assignment" :: .funcStart "_sah" :: (sahBodyLines ++ [.funcEnd]) else []) ++
+  (if s.schReq then .comment "slice copy" :: .funcStart "_sch" :: (schBodyLines ++ [.funcEnd]) else []) ++
+  (if s.sshReq then .comment "substring" :: .funcStart "_ssh" :: (sshBodyLines ++ [.funcEnd]) else [])
 
 def currentForVar : BM Nat := fun s =>
   match s.fors with
